@@ -40,10 +40,15 @@ theorem C22_gen_mixed : nmixedFields Gen.C22.nsites =
      [86, 111, 116, 101, 115],
      [68, 101, 112, 111, 115, 105, 116, 73, 110, 102, 111, 91, 93]] := by decide +kernel
 
-/-- T-gen: fingerprints of the printed source of the execute / rollback closures of every site, in
-    table order.  Any edit inside a closure (a changed guard, a dropped or altered restore) changes its
-    fingerprint; the lemma then stops checking and the edited site has to be reviewed again
-    (deliberately strict: rollback closures are consensus critical; a pure rename also trips it). -/
+/-- T-gen: fingerprints (FNV-1a mod 1000000007) of the printed source of the execute / rollback
+    closures of every `History.Append` site, in table order.
+    **Scope, stated plainly:** this lemma is a tripwire, not a semantic check.  It fires on ANY edit
+    inside a closure — a changed guard, a dropped or altered restore, but equally a pure rename or a
+    reformatting that changes the printed text.  When it fires and the real-state harness finds no
+    rollback≠direct history, `./check` reports `VIOLATION … no-failing-input-found`, which is the
+    documented outcome for a (possibly harmless) rewrite: the edited site has to be reviewed and the
+    expected list regenerated.  Finding a concrete failing history is the job of the harness
+    (harness/cmd/c22), which replays corpus witnesses for the known change shapes first. -/
 theorem C22_gen_closure_sigs : Gen.C22.nsites.map (·.sig) =
     [9962180, 750813433, 770316216, 645575512, 127602202, 445475324, 626413445, 900529068, 185961846, 810918193, 461168208, 794486634, 846387776, 404197383, 439951667, 597376763, 597376763, 634656143, 411050541, 132473555, 741084286, 822250875, 663867978, 570988615, 908153797, 608066761, 235357756, 297613589, 32725566, 107649028, 752979975, 842765571, 752979975, 198779052, 5243692, 165741592, 943467143, 5243692, 165741592, 446419633, 5243692, 165741592, 417197946, 626848284, 164273645, 201563087, 865888620, 532379009, 675769889, 822129809, 651535244, 264430981, 429636841, 348966836, 834228343, 345458624, 822250875, 473779557, 889055389, 413387590, 127566156, 1998080, 506730759, 615620509, 351975496, 247987263, 175385429, 347994189, 868712553, 554893124, 145703125, 437001470, 109001591, 244621206, 727979913, 171572981, 554893124, 608339328, 42436511, 372252055, 847388018, 544550613, 461121496, 919829998, 542626833, 841783865, 348822083, 775730230, 912981382, 712928288, 944127136, 257628850, 494881186, 839671127, 836597081, 439762360, 870424425] := by decide +kernel
 
